@@ -706,9 +706,10 @@ def judge(ctx, case: dict, obs: dict, line_sink: list | None = None) -> None:
                          f"{case['root']!r}", rp)
     if ctx.use_model and line_sink is not None:
         common = os.path.commonpath(["/" + r for r in roots]).lstrip("/") if case["path_rels"] is not None else case["cwd"]
-        sect = [f for f, t in case["files"].items() if f.endswith("/pyproject.toml") and "[tool.pytask.ini_options]" in t]
+        tables = [f"{enc_path(f'{V}/{f}')}|{'.'.join(enc(k) for k in t)}" for f, txt in sorted(case["files"].items())
+                  if f.endswith("/pyproject.toml") for t in toml_tables(txt)]
         rline = " ".join(["clean.root", "base=/v", "tree=" + tree_tokens({"ws": "d", **{f"ws/{k}": v for k, v in s0.items()}}, "ws"),
-                          "common=" + enc_path(f"{V}/{common}"), "sect=" + ",".join(enc_path(f"{V}/{x}") for x in sect)])
+                          "common=" + enc_path(f"{V}/{common}"), "tables=" + ",".join(tables)])
         line_sink.append(("root", case, rline, case["root"], f"{case['root']}/pyproject.toml" if case["has_cfg"] else None))
 
     # --- oracle 2: dry-run removes / changes nothing (checked first: everything else is read off the dry-run listing)
@@ -796,6 +797,25 @@ def judge(ctx, case: dict, obs: dict, line_sink: list | None = None) -> None:
         line = model_line(case, obs, s1, roots, mode, yes)
         if line_sink is not None:
             line_sink.append((case, obs, line, listed, s2))
+
+
+def toml_tables(text: str) -> list[tuple[str, ...]]:
+    """Paths of all tables of a TOML document (the harness's own reading of the file, by the standard parser)."""
+    import tomllib
+    try:
+        doc = tomllib.loads(text.replace("{W}", V))
+    except tomllib.TOMLDecodeError:
+        return []
+    out: list[tuple[str, ...]] = []
+
+    def walk(d: dict, pre: tuple[str, ...]):
+        for k, v in d.items():
+            if isinstance(v, dict):
+                out.append(pre + (k,))
+                walk(v, pre + (k,))
+
+    walk(doc, ())
+    return out
 
 
 def second_input_answers(case: dict) -> list[bool]:
@@ -1165,7 +1185,7 @@ def load_corpus() -> list[dict]:
 def campaign(ctx) -> None:
     # 1. corpus (known witnesses must still be detected: self-test of the oracle)
     corpus = load_corpus()
-    n_cli = ctx.scale(400, 6000)
+    n_cli = ctx.scale(360, 6000)
     n_dn = ctx.scale(30, 300)
     cases = list(corpus)
     cases += [gen_case(ctx.rng, f"c{i}") for i in range(n_cli)]
